@@ -431,7 +431,16 @@ class Engine(StmtMixin):
         for cl in sh.invariant:
             st.assume(self.eval_clause(cl, st, ictx))
 
-    def apply_rely(self, st: State, ctx: Ctx, line: int) -> None:
+    def check_atomic_inv(self, st: State, line: int, where: str) -> None:
+        top = self.top_ctx
+        if top is None or top.contract is None:
+            return
+        from .contracts import _clauses
+        sctx = top.sub(spec=True)
+        for cl in _clauses(top.contract.env.get("atomic_inv", [])):
+            self.oblige(st, self.eval_clause(cl, st, sctx), "atomic-inv", line, f"{where}:{cl.name}", cl.tags)
+
+    def apply_rely(self, st: State, ctx: Ctx, line: int, check_inv: bool = True) -> None:
         """At a suspension point of the function under verification: the atomic invariants must hold (obligation), then
         the paths named by the contract's `rely_havoc` change arbitrarily subject to `rely_inv` (what other tasks may do)."""
         top = self.top_ctx
@@ -444,8 +453,9 @@ class Engine(StmtMixin):
             return
         from .contracts import _clauses
         sctx = top.sub(spec=True)
-        for cl in _clauses(c.env.get("atomic_inv", [])):
-            self.oblige(st, self.eval_clause(cl, st, sctx), "atomic-inv", line, f"before-suspension:{cl.name}", cl.tags)
+        if check_inv:
+            for cl in _clauses(c.env.get("atomic_inv", [])):
+                self.oblige(st, self.eval_clause(cl, st, sctx), "atomic-inv", line, f"before-suspension:{cl.name}", cl.tags)
         for pth in rh:
             if pth.startswith("?"):
                 # optional path: only when its root variable is bound at this suspension point
